@@ -42,6 +42,8 @@ inductive Out where
   | helperReply (to : Nat) (b : Block)
   | make (round : Nat) (qc : QC) (tc : Option TC)  -- Core → Proposer (internal)
   | entered (round : Nat) (ev : Evidence)          -- ghost: the round changed
+  | voted (b : Block)                              -- ghost: a vote for b was signed (`make_vote`)
+  | twoChain (b0 b1 blk : Block)                   -- ghost: `commit(b0)` was called on this 2-chain
   deriving Repr, Inhabited, DecidableEq
 
 structure Node where
@@ -113,13 +115,13 @@ def storeBlock (s : Node) (b : Block) : Node := { s with store := (b.digest, b) 
 /-- The synchronizer task receiving a block whose parent is missing. -/
 def park (c : Committee) (s : Node) (b : Block) : Node :=
   if s.syncPending.any (fun x => x.digest == b.digest) then s
+  else if s.syncRequests.contains b.parent then { s with syncPending := s.syncPending ++ [b] }
+  else if c.keys.contains b.author then
+    ({ s with syncPending := s.syncPending ++ [b], syncRequests := s.syncRequests ++ [b.parent] }).emit
+      (.syncRequest (some b.author) b.parent)
   else
-    let s := { s with syncPending := s.syncPending ++ [b] }
-    if s.syncRequests.contains b.parent then s
-    else
-      let s := { s with syncRequests := s.syncRequests ++ [b.parent] }
-      if c.keys.contains b.author then s.emit (.syncRequest (some b.author) b.parent)
-      else s.fail .authorNotInCommittee
+    ({ s with syncPending := s.syncPending ++ [b], syncRequests := s.syncRequests ++ [b.parent] }).fail
+      .authorNotInCommittee
 
 inductive Parent where
   | found (b : Block)
@@ -198,20 +200,24 @@ def maxRounds : List Nat → Option Nat
   | [] => none
   | a :: l => some (l.foldl max a)
 
+/-- Safety rule 2 of `make_vote`; `none` is the `expect("Empty TC")` panic (the maximum is
+computed whenever the block carries a TC). -/
+def safetyRule2 (b : Block) : Option Bool :=
+  let viaQC := b.qc.round + 1 == b.round
+  match b.tc with
+  | none => some viaQC
+  | some tc =>
+    match maxRounds tc.highQcRounds with
+    | none => none
+    | some m => some (viaQC || (tc.round + 1 == b.round && b.qc.round ≥ m))
+
 /-- `Core::make_vote`. -/
 def makeVote (s : Node) (b : Block) : Node × Option Vote :=
-  let rule1 := b.round > s.lastVoted
-  let viaQC := b.qc.round + 1 == b.round
-  match (match b.tc with
-      | none => some viaQC
-      | some tc =>
-        match maxRounds tc.highQcRounds with
-        | none => none
-        | some m => some (viaQC || (tc.round + 1 == b.round && b.qc.round ≥ m))) with
+  match safetyRule2 b with
   | none => (s.fail .emptyTC, none)
   | some rule2 =>
-    if rule1 && rule2 then
-      ({ s with lastVoted := max s.lastVoted b.round },
+    if b.round > s.lastVoted && rule2 then
+      (({ s with lastVoted := max s.lastVoted b.round }).emit (.voted b),
        some { hash := b.digest, round := b.round, author := s.name,
               sig := ⟨s.name, .vote b.digest b.round⟩ })
     else (s, none)
@@ -266,44 +272,66 @@ def payloadVerify (s : Node) (b : Block) : Node × Bool :=
 def mempoolCleanup (s : Node) (r : Nat) : Node :=
   ({ s with payPending := s.payPending.filter (fun e => e.1.round > r) }).emit (.mempoolCleanup r)
 
+/-- Tail of `process_block`: hand the vote to the next leader (ourselves or over the network). -/
+def sendVote (c : Committee) (s : Node) (v : Vote) : Node :=
+  if c.leader (s.round + 1) == s.name then (s.emit (.selfVote v)).handleVote c v
+  else if c.keys.contains (c.leader (s.round + 1)) then s.emit (.vote (c.leader (s.round + 1)) v)
+  else s.fail .nextLeaderNotInCommittee
+
+/-- `process_block` after the commit attempt: round check, `make_vote`, send. -/
+def voteStage (c : Committee) (s : Node) (ok : Bool) (b : Block) : Node :=
+  if !ok || s.panic.isSome then s
+  else if b.round != s.round then s
+  else
+    match s.makeVote b with
+    | (s', none) => s'
+    | (s', some v) => sendVote c s' v
+
+/-- `store_block` followed by `cleanup_proposer`. -/
+def afterStore (s : Node) (b0 b1 b : Block) : Node :=
+  { (s.storeBlock b) with
+    propQ := s.propQ ++ [PMsg.cleanup (b0.payload ++ b1.payload ++ b.payload)] }
+
+/-- The state handed to `commit` when the 2-chain is consecutive. -/
+def beforeCommit (s : Node) (b0 b1 b : Block) : Node :=
+  ((afterStore s b0 b1 b).mempoolCleanup b0.round).emit (.twoChain b0 b1 b)
+
+/-- `process_block` once both ancestors are at hand: store, tell the proposer, commit, vote. -/
+def processBlockTail (c : Committee) (s : Node) (b0 b1 b : Block) : Node :=
+  if b0.round + 1 == b1.round then
+    voteStage c (commit c (beforeCommit s b0 b1 b) b0).1 (commit c (beforeCommit s b0 b1 b) b0).2 b
+  else
+    voteStage c (afterStore s b0 b1 b) true b
+
 /-- `Core::process_block`. -/
 def processBlock (c : Committee) (s : Node) (b : Block) : Node :=
-  match getParent c s b with
-  | (s, .parked) => s
-  | (s, .error) => s
-  | (s, .found b1) =>
-    match getParent c s b1 with
-    | (s, .parked) => s.fail .missingAncestorDelivered
-    | (s, .error) => s
-    | (s, .found b0) =>
-      let s := s.storeBlock b
-      let s := { s with propQ := s.propQ ++ [.cleanup (b0.payload ++ b1.payload ++ b.payload)] }
-      let (s, ok) :=
-        if b0.round + 1 == b1.round then commit c (s.mempoolCleanup b0.round) b0 else (s, true)
-      if !ok || s.panic.isSome then s
-      else if b.round != s.round then s
-      else
-        match s.makeVote b with
-        | (s, none) => s
-        | (s, some v) =>
-          let next := c.leader (s.round + 1)
-          if next == s.name then (s.emit (.selfVote v)).handleVote c v
-          else if c.keys.contains next then s.emit (.vote next v)
-          else s.fail .nextLeaderNotInCommittee
+  match (getParent c s b).2 with
+  | .parked => (getParent c s b).1
+  | .error => (getParent c s b).1
+  | .found b1 =>
+    match (getParent c (getParent c s b).1 b1).2 with
+    | .parked => (getParent c (getParent c s b).1 b1).1.fail .missingAncestorDelivered
+    | .error => (getParent c (getParent c s b).1 b1).1
+    | .found b0 => processBlockTail c (getParent c (getParent c s b).1 b1).1 b0 b1 b
+
+/-- `if let Some(ref tc) = block.tc { self.advance_round(tc.round) }`. -/
+def advanceTC (s : Node) (tc : Option TC) : Node :=
+  match tc with
+  | some tc => s.advanceRound tc.round (.tc tc)
+  | none => s
+
+/-- `handle_proposal` after the certificates were processed: payload check, then `process_block`. -/
+def proposalTail (c : Committee) (s : Node) (b : Block) : Node :=
+  match s.payloadVerify b with
+  | (s', false) => s'
+  | (s', true) => processBlock c s' b
 
 /-- `Core::handle_proposal`. -/
 def handleProposal (c : Committee) (s : Node) (b : Block) : Node :=
   if b.author != c.leader b.round then s
   else match b.verify c with
     | .error _ => s
-    | .ok _ =>
-      let s := s.processQC b.qc
-      let s := match b.tc with
-        | some tc => s.advanceRound tc.round (.tc tc)
-        | none => s
-      match s.payloadVerify b with
-      | (s, false) => s
-      | (s, true) => s.processBlock c b
+    | .ok _ => proposalTail c ((s.processQC b.qc).advanceTC b.tc) b
 
 /-! ### proposer.rs -/
 
